@@ -171,12 +171,54 @@ def rule_flag_polarity(col, facts):
         col.check(R, "option:" + g, g in w and g in p, "option getter %s() is read by writer=%s parser=%s" % (g, g in w, g in p), "")
 
 
+def rule_exponent_sign_paths(col, facts):
+    """KEY-flags (exponent sign, exactly-when): in write_exponent_sign every path on which the exponent is not
+    negative must consult required_exponent_sign() and, when it is true, store '+': the parser demands a sign
+    for *every* exponent under that flag, including 0."""
+    from rules.core import enum_paths
+    if "format" not in facts.config:
+        return
+    R = "KEY-flags"
+    f = facts.fn(WF + "shared::write_exponent_sign")
+    plus = set()
+    for i, b in enumerate(f.blocks):
+        if not f.live(i):
+            continue
+        for st in b["s"]:
+            if st[0] == "=" and st[1][1] and st[2][0] == "use" and st[2][1][0] == "k" and st[2][1][1].get("v") == 43:
+                plus.add(i)
+    rets = {i for i, b in enumerate(f.blocks) if f.live(i) and b["t"]["k"] == "return"}
+    n = 0
+    for t, atoms, env in enum_paths(f, 0, rets, want_env=True):
+        neg = None
+        req = None
+        other = []
+        for e, p in atoms:
+            e = strip_casts(e)
+            if e[0] == "bin" and e[1] == "Lt" and strip_casts(e[3]) == ("k", 0) and strip_casts(e[2])[0] == "arg":
+                neg = p
+            elif e[0] == "call" and last_seg(e[1]) == "required_exponent_sign":
+                req = p
+            elif e[0] == "bin" and any(strip_casts(x)[0] == "arg" for x in (e[2], e[3])):
+                other.append(show(e))
+        if neg is not False:
+            continue
+        n += 1
+        wrote = bool(plus & env["__blocks__"])
+        col.check(R, "write_exponent_sign:nonnegative-path#%d" % n, req is not None and wrote == (req is True),
+                  "a path for a non-negative exponent %s (extra tests on the exponent: %s): with required_exponent_sign the writer must emit '+' for every exponent >= 0, the parser rejects `e0`" % ("does not consult required_exponent_sign()" if req is None else ("stores no '+' although the flag is true" if req else "stores '+' although the flag is false"), other or "none"), f.loc())
+    col.floor(R, "non-negative exponent paths", n, 2)
+
+
 def run(col, configs, tier):
     for name, facts in configs.items():
         col.set_config(name)
         guarded(col, rule_mixed, facts)
         guarded(col, rule_mask_shift, facts)
         guarded(col, rule_flag_polarity, facts)
+        guarded(col, rule_exponent_sign_paths, facts)
+        from rules import extra as X
+        guarded(col, X.rule_mixed_base_scaling, facts)
         from rules import c15
         guarded(col, c15.rule_parse_specials, facts)
         guarded(col, c15.rule_write_specials, facts)
